@@ -130,14 +130,25 @@ class ParsePrint(Base):
         if kind in ('reserved', 'app-dep', 'top-level'):
             absolute = False
         value = ref_string(c, prod, f, method, stage if absolute else None)
+        # callers that know no top-level folders leave the argument out (DataReferenceInfo); the folder shapes need it
+        folders = list(TOPLEVEL) if (kind == 'top-level' or c.one_of('special_folders_given', [True, False])) else None
         return State(args=[cls, value], kwargs={'index': stage, 'application_dependencies': list(APPDEPS),
-                                                'special_folders': list(TOPLEVEL)},
+                                                'special_folders': folders},
                      cls=cls, kind=kind, prod=prod, is_comp=is_comp, f=f, method=method, stage=stage, absolute=absolute, value=value)
 
     def real_function(self):
         return FlowIR.ParseDataReferenceFull.__func__
 
     def ensures(self, c, st, out):
+        # FRAME: parsing a reference leaves the class-level table of reserved folders alone (a table that grows with
+        # the application dependencies of one package would change how the references of the NEXT package are classified)
+        table = list(st.cls.SpecialFolders)
+        frame = ('the-reserved-folder-table-is-not-modified', table == list(SPECIAL))
+        if table != list(SPECIAL) and st.cls is FlowIR:
+            FlowIR.SpecialFolders[:] = list(SPECIAL)          # native run on the real class: undo, this process goes on
+        return [frame] + self._ensures(c, st, out)
+
+    def _ensures(self, c, st, out):
         if out.kind == 'raise':
             return [('no-exception', False)]
         s, p, f, m = out.value
